@@ -211,6 +211,13 @@ func credentialClasses() []cred {
 		{name: "alg-none-with-signature", token: b64(`{"alg":"none","typ":"JWT"}`) + "." + payload + "." + strings.Split(valid, ".")[2]},
 		{name: "expired", token: enc("HS256", []byte(jwtSecret), with("exp", now.Add(-time.Hour).Unix()))},
 		{name: "not-yet-valid", token: enc("HS256", []byte(jwtSecret), with("nbf", now.Add(time.Hour).Unix()))},
+		// combinations: every claim but one is fine - a validator that stops at the first claim it looks at, or tolerates
+		// clock skew on one claim by clearing the error, must still refuse these
+		{name: "expired+iat-in-future", token: enc("HS256", []byte(jwtSecret), map[string]interface{}{"sub": "attacker", "exp": now.Add(-time.Hour).Unix(), "iat": now.Add(20 * time.Second).Unix()})},
+		{name: "not-yet-valid+iat-in-future", token: enc("HS256", []byte(jwtSecret), map[string]interface{}{"sub": "attacker", "nbf": now.Add(time.Hour).Unix(), "exp": now.Add(2 * time.Hour).Unix(), "iat": now.Add(20 * time.Second).Unix()})},
+		{name: "expired+nbf-and-iat-past", token: enc("HS256", []byte(jwtSecret), map[string]interface{}{"sub": "attacker", "exp": now.Add(-time.Hour).Unix(), "nbf": now.Add(-2 * time.Hour).Unix(), "iat": now.Add(-2 * time.Hour).Unix()})},
+		{name: "expired-30s-ago", token: enc("HS256", []byte(jwtSecret), with("exp", now.Add(-30*time.Second).Unix()))},
+		{name: "not-valid-for-another-30s", token: enc("HS256", []byte(jwtSecret), map[string]interface{}{"sub": "attacker", "nbf": now.Add(30 * time.Second).Unix(), "exp": now.Add(time.Hour).Unix()})},
 		{name: "valid", token: valid, valid: true},
 	}
 }
